@@ -65,7 +65,11 @@ fn install_panic_hook() {
             "?".to_string()
         };
         let loc = info.location().map(|l| format!(" @{}:{}", l.file(), l.line())).unwrap_or_default();
-        let full = format!("{msg}{loc}").replace('\n', " ");
+        let mut short: String = msg.chars().take(400).collect();
+        if short.len() < msg.len() {
+            short.push_str("...");
+        }
+        let full = format!("{short}{loc}").replace('\n', " ");
         if GUARDED.with(|g| g.get()) {
             LAST_PANIC.with(|p| *p.borrow_mut() = full);
         } else {
